@@ -178,11 +178,23 @@ pub fn determinism(ctx: &Ctx, rep: &mut Report) {
     let mut args: Vec<String> = s512.iter().map(|s| format!("5{}", hex(s))).collect();
     args.extend(s1024.iter().map(|s| format!("A{}", hex(s))));
     let mut kids = vec![];
-    for c in 0..2 {
+    // children 2 and 3 additionally run with a restricted CPU set (one CPU; three CPUs): the
+    // number of usable processors is part of the environment a key must not depend on
+    let taskset = ["/usr/bin/taskset", "/bin/taskset"].iter().find(|p| std::path::Path::new(p).exists()).cloned();
+    for c in 0..4 {
         let out = dir.join(format!("child-{}.json", c));
-        let mut cmd = std::process::Command::new(&exe);
+        let mut cmd = match (c, taskset) {
+            (2, Some(t)) | (3, Some(t)) => {
+                let mut k = std::process::Command::new(t);
+                k.args(["-c", if c == 2 { "0" } else { "0-2" }]).arg(&exe);
+                rep.count("children_with_restricted_cpu_set", 1);
+                k
+            }
+            (2, None) | (3, None) => continue,
+            _ => std::process::Command::new(&exe),
+        };
         cmd.args(["run", "C15", "child", "--seed", "1", "--out", out.to_str().unwrap(), "--"]).args(&args);
-        cmd.env("TZ", if c == 0 { "UTC" } else { "Asia/Tokyo" }).env("LANG", if c == 0 { "C" } else { "en_US.UTF-8" });
+        cmd.env("TZ", if c % 2 == 0 { "UTC" } else { "Asia/Tokyo" }).env("LANG", if c % 2 == 0 { "C" } else { "en_US.UTF-8" });
         cmd.env("VF_PADDING", "x".repeat(1 + 4097 * c)); // shifts the initial stack
         cmd.env("VF_THREADS", "1");
         match cmd.spawn() {
@@ -241,7 +253,7 @@ pub fn determinism(ctx: &Ctx, rep: &mut Report) {
                     let f: Vec<u64> = e["fp"].as_array().unwrap().iter().map(|x| x.as_str().unwrap().parse().unwrap()).collect();
                     rep.evaluations += 1;
                     if f.len() == 4 {
-                        record(&mut table.lock().unwrap(), var, s, &format!("process-{}", c), (f[0], f[1], f[2] as usize, f[3] as usize));
+                        record(&mut table.lock().unwrap(), var, s, &format!("process-{}{}", c, ["", "", " (CPU set 0)", " (CPU set 0-2)"][c.min(3)]), (f[0], f[1], f[2] as usize, f[3] as usize));
                     } else {
                         rep.violation("panic:keygen", format!("{} keygen({}) failed in child process {}", var, hex(&s), c), json!({"variant": var, "seed": hex(&s)}));
                     }
